@@ -150,7 +150,7 @@ def build_lib(flavour):
         shutil.rmtree(d, ignore_errors=True)
         os.rename(tmp, d)
         log("built %s archive in %.1fs -> %s" % (flavour, time.time() - t0, d))
-        prune("lib-" + flavour, 4)
+        prune("lib-" + flavour, 10)
         return lib
 
 
@@ -205,7 +205,7 @@ def build_driver(name, flavour, extra_cflags=(), extra_ldflags=(), sources=None)
         shutil.rmtree(d, ignore_errors=True)
         os.rename(tmp, d)
         log("built driver %s/%s in %.1fs" % (name, flavour, time.time() - t0))
-        prune("drv-%s-%s" % (name, flavour), 6)
+        prune("drv-%s-%s" % (name, flavour), 12)
         return exe
 
 
